@@ -2,10 +2,10 @@ import CompmechVerif.Props.C05
 #print axioms Compmech.EigPost.C05.lb_pairs
 #print axioms Compmech.EigPost.C05.removed_iff_null_column
 #print axioms Compmech.EigPost.C05.lb_sparse_direct_returns
-#print axioms Compmech.EigPost.C05.lb_sparse_fallback_shapes
-#print axioms Compmech.EigPost.C05.lb_dense_shapes
-#print axioms Compmech.EigPost.C05.lb_shapes_partial
-#print axioms Compmech.EigPost.C05.lb_shapes_counterexample
+#print axioms Compmech.EigPost.C05.lb_shapes_total
+#print axioms Compmech.EigPost.C05.lb_result_shape
+#print axioms Compmech.EigPost.C05.lb_requests_in_arpack_range
+#print axioms Compmech.EigPost.C05.lb_repaired_instances_return
 #print axioms Compmech.EigPost.C05.multipliers_ascending_positive
 #print axioms Compmech.EigPost.C05.cayley_transform
 #print axioms Compmech.EigPost.C05.cayley_selects_smallest_positive
